@@ -16,10 +16,10 @@ theorem validate_errs_pipe (X : SchemaX) (o : VOpts) (t : List DNode) (hpe : (o.
 theorem belowL_top_id (X : SchemaX) : ∀ k, BelowL k X.top → BelowL k X.top := fun _ h => h
 
 section main
-variable (X : SchemaX) (o : VOpts) (hop : o.operational = false) (hu : X.uniques = []) (hq : X.q.implicitInnerCase = false)
+variable (X : SchemaX) (o : VOpts) (hop : o.operational = false) (hU : UniqBridge X o) (hq : X.q.implicitInnerCase = false)
   (hl : KidsLookupOk X) (hio : InfoOk X) (hs : FullSane X o) (t : List DNode) (hg : goodL X X.top t = true)
   (hlen0 : t.length ≤ uint32Max) (hh : sheightL X.top ≤ walkFuel X t)
-include hop hu hq hl hio hs hg hlen0 hh
+include hop hU hq hl hio hs hg hlen0 hh
 
 /-- every logged error names a violated constraint family -/
 theorem validate_full_sound : ∀ e ∈ (validate X o t).errs, e.kind ∈ violations X o t := by
@@ -34,7 +34,7 @@ theorem validate_full_sound : ∀ e ∈ (validate X o t).errs, e.kind ∈ violat
     simp only [hpe', Bool.false_eq_true, if_false]
     rw [List.mem_append]
     left
-    exact level_main_sound X o hop hu hq hl hio hs (walkFuel X t) X.top t {} {} {} {} hh (belowL_top_id X) hs.top rfl rfl hg hlen0 e he
+    exact level_main_sound X o hop hU hq hl hio hs (walkFuel X t) X.top t {} {} {} {} hh (belowL_top_id X) hs.top rfl rfl hg hlen0 e he
 
 /-- accepted iff valid -/
 theorem validate_full_iff : (buildL X.base t = none ∧ (validate X o t).errs = []) ↔ Valid X o t := by
@@ -56,7 +56,7 @@ theorem validate_full_iff : (buildL X.base t = none ∧ (validate X o t).errs = 
     · rintro ⟨hb, he⟩
       apply List.eq_nil_iff_forall_not_mem.2
       intro K hK
-      rcases level_main_complete X o hop hu hq hl hio hs (walkFuel X t) X.top t {} {} {} {} hh (belowL_top_id X) hs.top rfl rfl hg hlen0
+      rcases level_main_complete X o hop hU hq hl hio hs (walkFuel X t) X.top t {} {} {} {} hh (belowL_top_id X) hs.top rfl rfl hg hlen0
         K hK with h | h
       · exact h hb
       · rw [← validate_errs_pipe X o t hpe'] at h
@@ -70,7 +70,7 @@ theorem validate_full_iff : (buildL X.base t = none ∧ (validate X o t).errs = 
         · rw [hv] at h; cases h
       · apply List.eq_nil_iff_forall_not_mem.2
         intro e he
-        have := validate_full_sound X o hop hu hq hl hio hs t hg hlen0 hh e he
+        have := validate_full_sound X o hop hU hq hl hio hs t hg hlen0 hh e he
         rw [hviol, hv] at this
         cases this
 
